@@ -14,6 +14,8 @@ Family ustr: one value of every built-in type, classes, exceptions with
              the value's own __str__ misbehaves.
 """
 
+import abc
+import enum
 import itertools
 
 from ..core import HarnessFault
@@ -222,6 +224,22 @@ class MyExc(Exception):
     pass
 
 
+class Meta(type):
+    pass
+
+
+class WithMeta(metaclass=Meta):
+    pass
+
+
+class Abstract(abc.ABC):
+    pass
+
+
+class Colour(enum.Enum):
+    RED = 1
+
+
 def value_table():
     """(label, value, expected text or exception class name)"""
     plain = Plain()
@@ -240,7 +258,9 @@ def value_table():
         ('bytes', 'b\xe9'.encode('utf-8'), 'b\xe9'),
         ('class-builtin', int, None), ('class-user', Plain, None),
         ('class-exc', ValueError, None), ('class-userexc', MyExc, None),
-        ('metaclass', type, None),
+        ('metaclass', type, None), ('class-custom-meta', WithMeta, None),
+        ('class-abc', Abstract, None), ('class-enum', Colour, None),
+        ('enum-member', Colour.RED, None), ('metaclass-user', Meta, None),
         ('function', boom, None), ('builtin-function', len, None),
         ('lambda', (lambda: 1), None), ('method', plain.__init__, None),
         ('module', itertools, None),
